@@ -7,6 +7,7 @@ REPO=${VARPRO_REPO:-/repo}
 # source-derived Lean tables (C16 dispatch, C18 guard program): regenerated from the repository
 python3 tools/extract_dispatch.py $REPO lean/VarproModel/Generated/Dispatch.lean >/dev/null || true
 python3 tools/extract_pbuilder.py $REPO lean/VarproModel/Generated/PBuilderChecks.lean >/dev/null || true
+python3 tools/extract_mbuilder.py $REPO lean/VarproModel/Generated/MBuilderOrder.lean >/dev/null || true
 (cd lean && lake build VarproModel driver)
 sed -i "s#varpro = { path = \"[^\"]*\" }#varpro = { path = \"$REPO\" }#" harness/Cargo.toml
 cp $REPO/Cargo.lock harness/Cargo.lock 2>/dev/null || cp harness/Cargo.lock.base harness/Cargo.lock
